@@ -137,3 +137,29 @@ pub fn deser_meta(b: &Vec<u8>) -> (r: Result<Meta, TErr>) ensures r.is_err() ==>
 // Vec<u8> -> Bytes
 #[verifier::external_body]
 pub fn bytes_from_vec(v: Vec<u8>) -> (r: Bytes) ensures r@ == v@ { unimplemented!() }
+
+// ---- the blob header as the tools read it (BlobReader::read_data::<BlobHeader>) ----
+pub struct ToolBlobHeader { pub magic_byte: u64, pub version: u32, pub flags: u64 }
+// bincode length of the blob header (fixed-int encoding: 8 + 4 + 8; NOT size_of, which includes padding)
+pub open spec fn blob_header_len(h: ToolBlobHeader) -> nat { 20 }
+pub const BLOB_MAGIC_BYTE: u64 = 0xdeaf_abcd;
+impl StdFile {
+    // bincode::deserialize_from(&mut file): consumes exactly the serialized length of the value it returns
+    #[verifier::external_body]
+    pub fn deser_blob_header(&mut self) -> (r: Result<ToolBlobHeader, TErr>)
+        ensures r.is_ok() ==> final(self).pos() == old(self).pos() + blob_header_len(r->Ok_0), final(self).log() == old(self).log(),
+            final(self).attempts() == old(self).attempts(),
+            r.is_err() ==> !(r->Err_0 is Tools) && !(r->Err_0 is PearlValidation),
+    { unimplemented!() }
+}
+#[verifier::external_body]
+pub fn blob_header_serialized_size(h: &ToolBlobHeader) -> (r: Result<u64, TErr>)
+    ensures r.is_ok() ==> r->Ok_0 == blob_header_len(*h), r.is_err() ==> !(r->Err_0 is Tools) && !(r->Err_0 is PearlValidation)
+{ unimplemented!() }
+impl ToolBlobHeader {
+    // blob::Header::validate_without_version (src/blob/header.rs): the magic byte
+    #[verifier::external_body]
+    pub fn validate_without_version(&self) -> (r: Result<(), TErr>)
+        ensures r.is_ok() <==> self.magic_byte == BLOB_MAGIC_BYTE
+    { unimplemented!() }
+}
